@@ -692,6 +692,111 @@ fn handoff(threads: usize, rounds: usize, seed: u64) -> Value {
     json!({"mode": "stress", "threads": threads, "searches": total, "mismatches": mismatches, "panics": panics, "interleaving": format!("handoff{}x{}d{}", threads, rounds, depth), "inputs_mutated": []})
 }
 
+/// Many threads over the life of one process: a long-lived worker keeps projecting over a large
+/// array while waves of short-lived threads (several hundred in total) come and go, each projecting
+/// over its own large array; inside a wave all threads also hit, at the same instant, a document
+/// nobody has seen before whose long numeric strings go through `to_number`. Per-thread slots
+/// handed out modulo something, first-sight memo entries and the like show up here. Results are
+/// known by construction.
+fn crowd(wave_size: usize, waves: usize, seed: u64) -> Value {
+    use std::sync::atomic::{AtomicBool, Ordering};
+    let stop = Arc::new(AtomicBool::new(false));
+    let worker = {
+        let stop = stop.clone();
+        thread::spawn(move || {
+            let n = 171usize;
+            let doc = Rcvar::new(var_of(&json!({"items": (0..n).map(|i| json!({"id": format!("worker-{}", i), "n": i})).collect::<Vec<_>>()})));
+            let want = format!("ok:[{}]", (0..n).map(|i| format!("\"worker-{}\"", i)).collect::<Vec<_>>().join(","));
+            let e = jmespath::compile("items[*].id").unwrap();
+            let e2 = jmespath::compile("items[?n >= `0`].id").unwrap();
+            let mut bad = vec![];
+            let mut done = 0u64;
+            while !stop.load(Ordering::Relaxed) {
+                for x in [&e, &e2] {
+                    let g = fp(&x.search(&doc));
+                    done += 1;
+                    if g != want && bad.len() < 2 {
+                        bad.push(json!({"mode": "crowd", "thread": "long-lived worker", "expression": x.as_str(), "observed": g.chars().take(300).collect::<String>()}));
+                    }
+                }
+            }
+            (bad, done)
+        })
+    };
+    let mut mismatches: Vec<Value> = vec![];
+    let mut total = 0u64;
+    let mut panics = 0u64;
+    for w in 0..waves {
+        let base = 1_700_000_000_000_000_000u64 + seed * 1_000_000 + (w as u64) * 1000;
+        let shared = Rcvar::new(var_of(&json!({"items": (0..40u64).map(|i| json!({"id": i, "ts": (base + i * 7).to_string()})).collect::<Vec<_>>()})));
+        let shared_want = format!("ok:[{}]", (0..40).map(|i| i.to_string()).collect::<Vec<_>>().join(","));
+        let sorted_want = shared_want.clone();
+        let barrier = Arc::new(Barrier::new(wave_size));
+        let hs: Vec<_> = (0..wave_size)
+            .map(|t| {
+                let (shared, shared_want, sorted_want, barrier) = (shared.clone(), shared_want.clone(), sorted_want.clone(), barrier.clone());
+                let tag = w * wave_size + t;
+                thread::spawn(move || {
+                    let mut bad = vec![];
+                    let mut done = 0u64;
+                    let r = catch_unwind(AssertUnwindSafe(|| {
+                        let n = 48 + (tag * 13) % 260;
+                        let doc = Rcvar::new(var_of(&json!({"items": (0..n).map(|i| json!({"id": format!("r{}-{}", tag, i)})).collect::<Vec<_>>()})));
+                        let want = format!("ok:[{}]", (0..n).map(|i| format!("\"r{}-{}\"", tag, i)).collect::<Vec<_>>().join(","));
+                        barrier.wait();
+                        let g = fp(&jmespath::compile(&format!("items[?to_number(ts) >= `{}`].id", base)).and_then(|e| e.search(&shared)));
+                        done += 1;
+                        if g != shared_want && bad.len() < 2 {
+                            bad.push(json!({"mode": "crowd", "thread": tag, "expression": "items[?to_number(ts) >= `<base>`].id on a document first seen by all threads at once", "known_by_construction": shared_want, "observed": g}));
+                        }
+                        let g = fp(&jmespath::compile("sort_by(items, &to_number(ts))[*].id").and_then(|e| e.search(&shared)));
+                        done += 1;
+                        if g != sorted_want && bad.len() < 2 {
+                            bad.push(json!({"mode": "crowd", "thread": tag, "expression": "sort_by(items, &to_number(ts))[*].id", "known_by_construction": sorted_want, "observed": g}));
+                        }
+                        for _ in 0..6 {
+                            let g = fp(&jmespath::compile("items[*].id").and_then(|e| e.search(&doc)));
+                            done += 1;
+                            if g != want && bad.len() < 2 {
+                                bad.push(json!({"mode": "crowd", "thread": tag, "expression": "items[*].id", "elements": n, "observed": g.chars().take(300).collect::<String>()}));
+                            }
+                        }
+                    }));
+                    (bad, done, r.is_err())
+                })
+            })
+            .collect();
+        for h in hs {
+            match h.join() {
+                Ok((b, d, p)) => {
+                    for x in b {
+                        if mismatches.len() < 6 {
+                            mismatches.push(x);
+                        }
+                    }
+                    total += d;
+                    if p {
+                        panics += 1;
+                    }
+                }
+                Err(_) => panics += 1,
+            }
+        }
+        if mismatches.len() >= 6 {
+            break;
+        }
+    }
+    stop.store(true, Ordering::Relaxed);
+    match worker.join() {
+        Ok((b, d)) => {
+            mismatches.extend(b);
+            total += d;
+        }
+        Err(_) => panics += 1,
+    }
+    json!({"mode": "stress", "threads": wave_size, "searches": total, "mismatches": mismatches, "panics": panics, "interleaving": format!("crowd{}x{}", wave_size, waves), "inputs_mutated": []})
+}
+
 fn main() {
     let a: Vec<String> = std::env::args().skip(1).collect();
     let num = |i: usize, d: u64| a.get(i).and_then(|v| v.parse().ok()).unwrap_or(d);
@@ -699,6 +804,7 @@ fn main() {
         Some("stress") => stress(num(1, 4) as usize, num(2, 1000) as usize, num(3, 1), 24, 6),
         Some("first") => first(num(1, 4) as usize, num(2, 0), 26),
         Some("burst") => burst(num(1, 4) as usize, num(2, 2000) as usize, num(3, 1)),
+        Some("crowd") => crowd(num(1, 8) as usize, num(2, 20) as usize, num(3, 1)),
         Some("handoff") => handoff(num(1, 4) as usize, num(2, 300) as usize, num(3, 1)),
         Some("hotchurn") => hotchurn(num(1, 8) as usize, num(2, 2000), num(3, 1)),
         Some("twins") => twins(num(1, 4) as usize, num(2, 300) as usize, num(3, 1)),
